@@ -38,6 +38,12 @@ void v_fill(const char *name, void *ptr, size_t len)
 {
 	if (!lookup_(name, ptr, len)) pattern_(name, ptr, len);
 }
+/* objects the harness stand-ins tell apart with __CPROVER_same_object / __CPROVER_POINTER_OFFSET */
+static struct { const char *base; size_t size; } objs_[16]; static int nobjs_;
+void v_obj(const void *base, size_t size) { int i; for (i = 0; i < nobjs_; i++) if (objs_[i].base == (const char *) base) return; if (nobjs_ < 16) { objs_[nobjs_].base = base; objs_[nobjs_].size = size; nobjs_++; } }
+static int find_(const void *p) { int i; for (i = 0; i < nobjs_; i++) if ((const char *) p >= objs_[i].base && (const char *) p < objs_[i].base + objs_[i].size) return i; return -1; }
+int v_same_object(const void *p, const void *q) { int a = find_(p), b = find_(q); if (a < 0 || b < 0) return p == q; return a == b; }
+size_t v_pointer_offset(const void *p) { int a = find_(p); return a < 0 ? 0 : (size_t) ((const char *) p - objs_[a].base); }
 void v_fail(const char *what) { printf("REPLAY-FAILED: %s\n", what); v_failed = 1; }
 void v_pre_unsat(const char *what) { printf("REPLAY-PRECONDITION-NOT-MET: %s\n", what); exit(77); }
 extern void harness(void);
